@@ -589,12 +589,15 @@ def explore_one(fn, dec):
     return pr, list(CTX.pending)
 
 
-def explore(fn, max_paths=None, start=None):
+def explore(fn, max_paths=None, start=None, budget_s=None):
     """Run fn() along every feasible path (below the prefixes in `start`); return a list of PathResult."""
     work = [list(d) for d in start] if start else [[]]
     out = []
     limit = max_paths or CTX.max_paths
+    t_end = time.time() + budget_s if budget_s else None
     while work:
+        if t_end is not None and time.time() > t_end:
+            raise Undecided(f"exploration time budget exceeded ({budget_s}s, {len(out)} paths done, {len(work)} pending)")
         dec = work.pop()
         pr, pending = explore_one(fn, dec)
         if pr is not None:
